@@ -89,7 +89,7 @@ func genC03Program(r *R, ex map[string]bool) *Program {
 		return pick(r, maps)
 	}
 	seg := func() string {
-		switch r.N(14) {
+		switch r.N(19) {
 		case 0, 1:
 			return "{% for k, v in " + anyMap() + " %}{{ k }}={{ v|json_encode }}|{{ loop.index }};{% endfor %}"
 		case 2:
@@ -132,6 +132,16 @@ func genC03Program(r *R, ex map[string]bool) *Program {
 			return "{% for k, v in " + pick(r, maps) + " %}{% for k2, v2 in " + pick(r, maps) + " %}{{ k }}{{ k2 }}{% endfor %}/{% endfor %}"
 		case 12:
 			return "{{ " + pick(r, maps) + "|json_encode }}"
+		case 14:
+			// `with` values that refer to other keys of the same hash (and to outer variables of the same name)
+			return "{% set a = 'A0' %}{% set b = 'B0' %}{% include 'part0' with {'a': 1, 'b': a, 'c': b, 'd': c|default('x')} %}"
+		case 15:
+			return "{{ merge(" + pick(r, maps) + ", " + anyMap() + ")|" + pick(r, []string{"json_encode", "keys|join(',')", "length", "join(',')"}) + " }}"
+		case 16:
+			m := pick(r, maps)
+			return "{{ " + pick(r, []string{"max(" + m + ")", "min(" + m + ")", m + "|url_encode", m + " ~ ''", m + "|last", m + "|slice(0, 2)|json_encode", m + "|sort|join(',')", m + "|reverse|json_encode", m + "|merge(" + pick(r, maps) + ")|join(',')", m + "|keys|length", m + "|first|json_encode", "(" + m + "|length) ~ (" + m + "|keys|first)"}) + " }}"
+		case 17:
+			return "{% macro mm(name = 'q', id = name, label = id) %}[{{ name }}|{{ id }}|{{ label }}]{% endmacro %}{% set name = 'outer' %}{{ mm() }}{{ mm('u') }}{{ _self.mm('u', 'v') }}"
 		default:
 			return g.seg(1)
 		}
